@@ -118,6 +118,8 @@ def clone_args(a):
     return a
 
 def same(a, b):
+    if isinstance(a, tuple) and len(a) == 2 and a[0] == 'raised' or isinstance(b, tuple) and len(b) == 2 and b[0] == 'raised':
+        return a == b
     fa, fb = flatten(a), flatten(b)
     return len(fa) == len(fb) and all(x.dtype == y.dtype and x.shape == y.shape and torch.equal(x, y) for x, y in zip(fa, fb))
 
@@ -131,6 +133,13 @@ def strat_key(cfg):
     return cfg['kind'] + '/' + str(cfg['seed'] % 7)
 
 def call(m, kind, args, dt, grad):
+    """result tensors, or ('raised', exception type) - an exception is an outcome like any other and must be reproducible"""
+    try:
+        return call_(m, kind, args, dt, grad)
+    except (RuntimeError, ValueError, AssertionError) as e:
+        return ('raised', type(e).__name__)
+
+def call_(m, kind, args, dt, grad):
     m2 = copy.deepcopy(m).to(dt)      # nn.Module.to converts in place: never convert the shared instance
     if grad:
         for t in flatten(args): t.requires_grad_(True)
